@@ -51,7 +51,8 @@ Theorem C04_follower_commit_verified :
          commit n' = N.min c (eidx en')
      | AESnap _ _ p =>
        exists sn, recv_snapshot p (sr n) = Some (Good sn) /\ s_ver sn <= self_ver n /\
-         log n' = [s_e0 sn; s_e1 sn] /\ commit n' = N.min c (eidx (s_e1 sn))
+         log n' = (if snap_kept sn (log n) then delete_to (log n) (eidx (s_e0 sn)) else [s_e0 sn; s_e1 sn]) /\
+         commit n' = N.min c (eidx (s_e1 sn))
      | _ => False
      end).
 Proof. exact follower_commit_verified. Qed.
@@ -187,3 +188,37 @@ Theorem C04_log_wf_reachable :
   consec (log n) /\ ssorted (others n) /\ chan_all msg_wf g.
 Proof. exact reachable_log_wf. Qed.
 Print Assumptions C04_log_wf_reachable.
+
+(* installing a received snapshot keeps what the follower holds behind it: when the log holds the
+   snapshot's two entries the new log is the old one from the snapshot's first entry on, otherwise it
+   is [e0; e1]; applied is the snapshot's position and that is what the follower acknowledges *)
+Theorem C04_install_keeps_acknowledged :
+  forall (e : env) (from : nid) (t c : N) (p : snap_part) (n : node) (sn : snapshot),
+  term n <= t -> recv_snapshot p (sr n) = Some (Good sn) ->
+  s_ver sn <= self_ver n -> applied n < eidx (s_e1 sn) ->
+  let s' := on_message e from (AESnap t c p) n in
+  let n' := nd s' in
+  applied n' = eidx (s_e1 sn) /\
+  (snap_kept sn (log n) = true ->
+     log n' = delete_to (log n) (eidx (s_e0 sn)) /\
+     exists pre a b r, log n = pre ++ a :: b :: r /\
+       entry_eqb a (s_e0 sn) = true /\ entry_eqb b (s_e1 sn) = true /\ log n' = a :: b :: r) /\
+  (snap_kept sn (log n) = false -> log n' = [s_e0 sn; s_e1 sn]) /\
+  (smem from (tconn n') = true ->
+     In (Send from (NextIdx (term n') (eidx (s_e1 sn) + 1) false true)) (outs s')).
+Proof. exact install_keeps_acknowledged. Qed.
+Print Assumptions C04_install_keeps_acknowledged.
+
+(* on a log with consecutive indices: exactly the entries from the snapshot's first entry on; every
+   entry behind the snapshot's position is still there *)
+Theorem C04_install_keeps_suffix :
+  forall (e : env) (from : nid) (t c : N) (p : snap_part) (n : node) (sn : snapshot),
+  term n <= t -> recv_snapshot p (sr n) = Some (Good sn) ->
+  s_ver sn <= self_ver n -> applied n < eidx (s_e1 sn) ->
+  consec (log n) -> snap_kept sn (log n) = true ->
+  let n' := nd (on_message e from (AESnap t c p) n) in
+  log n' = filter (fun en => eidx (s_e0 sn) <=? eidx en) (log n) /\
+  (forall en, In en (log n) -> eidx (s_e1 sn) < eidx en -> In en (log n')) /\
+  applied n' = eidx (s_e1 sn).
+Proof. exact install_keeps_suffix. Qed.
+Print Assumptions C04_install_keeps_suffix.
